@@ -150,6 +150,8 @@ func main() {
 		runAPI(readCases(*inputs), *rep, *conc)
 	case "intervals":
 		runIntervals(readCases(*inputs), *outDir)
+	case "apiseq":
+		runAPISeq(*inputs)
 	case "astdiff":
 		runAstdiff(readCases(*inputs), *outDir)
 	case "commentcheck":
